@@ -86,7 +86,7 @@ func run(c *wk.Ctx) {
 			a.audit(false, "replaced")
 		}
 	})
-	ncases := c.Pick(400, 6000)
+	ncases := c.Pick(800, 8000)
 	for i := 0; i < ncases; i++ {
 		if c.Mine(i) {
 			runCase(c, i)
